@@ -2,7 +2,7 @@
     Statements only; every proof is [exact <lemma of proof/C15_Proof.v>]. *)
 From stdpp Require Import gmap strings sets pretty sorting.
 From SK Require Import model.C15_Model proof.C15_Proof.
-From SK Require Import model.C15_Ext proof.C15_Ext proof.C15_ExtQ proof.C15_ExtP proof.C15_ExtS proof.C15_ExtM proof.C15_ExtH proof.C15_ExtEx.
+From SK Require Import model.C15_Ext proof.C15_Ext proof.C15_ExtQ proof.C15_ExtP proof.C15_ExtS proof.C15_ExtL proof.C15_ExtM proof.C15_ExtH proof.C15_ExtEx.
 Local Open Scope string_scope.
 
 (** ** 1. The store invariant *)
@@ -451,7 +451,7 @@ Proof. exact paths_sound. Qed.
 Print Assumptions C15_paths_sound.
 
 (** paths (completeness): without max_paths every such chain is reported.
-    (The order among paths of equal length and the max_paths cut: oracle only.) *)
+    (Order and the max_paths cut: [C15_paths_order], [C15_paths_max_paths].) *)
 Theorem C15_paths_complete : forall (s : net) (a b : string) (h : Z) (ps : list (list string)) (rp : list string),
   Inv s -> paths s a b h None = inr ps ->
   rpath s a rp -> head rp = Some b -> (Z.of_nat (length rp) <= h + 1)%Z -> reverse rp ∈ ps.
@@ -464,6 +464,23 @@ Theorem C15_paths_shortest_first : forall (s : net) (a b : string) (h : Z) (ps :
   StronglySorted (fun p q => (length p <= length q)%nat) ps.
 Proof. exact paths_sorted. Qed.
 Print Assumptions C15_paths_shortest_first.
+
+(** the order of the answers: shorter first; equal length: lexicographic by
+    species label (the first position where two answers differ decides) *)
+Theorem C15_paths_order : forall (s : net) (a b : string) (h : Z) (ps : list (list string)),
+  Inv s -> paths s a b h None = inr ps ->
+  StronglySorted (fun p q => (length p < length q)%nat \/
+                             (length p = length q /\
+                              exists pre x y p' q', p = (pre ++ x :: p')%list /\ q = (pre ++ y :: q')%list /\
+                                                    String.leb x y = true /\ x <> y)) ps.
+Proof. exact paths_order_forward. Qed.
+Print Assumptions C15_paths_order.
+
+(** max_paths only cuts the answer list to its first max(1, max_paths) entries *)
+Theorem C15_paths_max_paths : forall (s : net) (a b : string) (h m : Z) (ps : list (list string)),
+  paths s a b h None = inr ps -> paths s a b h (Some m) = inr (take (Z.to_nat (Z.max 1 m)) ps).
+Proof. exact paths_max_paths. Qed.
+Print Assumptions C15_paths_max_paths.
 
 (** what [rpath] says: built from [src] by steps to a neighbour not yet visited *)
 Theorem C15_rpath_meaning : forall (s : net) (src : string) (rp : list string),
